@@ -25,18 +25,23 @@ def run(tier):
             raise vlib.Infra("vh convk failed: %s" % o[-400:])
         lines = open(out).read().splitlines()
         # binding self-test: one corrupted result must be reported by the trace specification
-        e = json.loads(lines[len(lines) // 2 + 7])
-        tst = [json.dumps(dict(e, ok=True, v=(e["v"] + 1)))]
+        # (a fixed line, independent of what the code under test returned: 5 x 2 / 1 = 10, recorded as 11)
+        tst = [json.dumps({"era": 0, "amt": 5, "fr": 2, "fa": 2, "tr": 1, "ta": 1, "ok": True, "v": 11})]
         rs = vlib.tlc("Trace_Convert", cfg="Trace_Convert.cfg", workers=1, files=[("trace.ndjson", "\n".join(tst) + "\n")], timeout=300, deadlock=False)
-        if not re.search(r'<<"DONE", 1, 1>>', rs.out):
+        if not re.search(r'<<"DONE", 1, 1, 0>>', rs.out):
             raise vlib.Infra("Trace_Convert accepted a corrupted line: %s" % rs.out[-800:])
         r = vlib.tlc("Trace_Convert", cfg="Trace_Convert.cfg", workers=1, files=[("trace.ndjson", out)], timeout=900, deadlock=False)
-        m = re.search(r'<<"DONE", (\d+), (\d+)>>', r.out)
+        m = re.search(r'<<"DONE", (\d+), (\d+), (\d+)>>', r.out)
         if r.rc != 0 or not m or int(m.group(1)) != len(lines):
             raise vlib.Infra("Trace_Convert failed: %s" % r.out[-800:])
         cov["kernel_calls_compared"] = len(lines)
         cov["mismatches"] = int(m.group(2))
-        cov["issues"] = [json.loads(json.loads('"' + x + '"')) for x in re.findall(r'^"ISSUE (.*)"\s*$', r.out, re.M)]
+        cov["mismatches_refusal"] = int(m.group(3))
+        cov["issues"] = []
+        for x in re.findall(r'^"ISSUE (.*)"\s*$', r.out, re.M):
+            i = json.loads(json.loads('"' + x + '"'))
+            if i not in cov["issues"]:
+                cov["issues"].append(i)
         cov["self_test"] = "a line with its result changed by one is reported"
         _cache["r"] = cov
         return cov
@@ -44,16 +49,19 @@ def run(tier):
         shutil.rmtree(work, ignore_errors=True)
 
 
-def check(pid, tier):
-    """Prints a VIOLATION line when the real kernel differs from Ledger.Convert; returns (mismatches, coverage)."""
+def check(pid, tier, refusal_only=False):
+    """Prints a VIOLATION line when the real kernel differs from Ledger.Convert; returns (mismatches, coverage).
+    refusal_only: count only calls whose refusal (error or not) differs - the admission half of the kernel (C13)."""
     cov = run(tier)
-    if cov["mismatches"]:
-        p = vlib.save_replay(pid, "convert-kernel-differs.json", json.dumps(cov["issues"], indent=1) + "\n")
-        for i in cov["issues"][:3]:
+    n = cov["mismatches_refusal"] if refusal_only else cov["mismatches"]
+    if n:
+        iss = [i for i in cov["issues"] if not refusal_only or i[0]["ok"] != i[1]["ok"]]
+        p = vlib.save_replay(pid, "convert-kernel-differs.json", json.dumps(iss, indent=1) + "\n")
+        for i in iss[:3]:
             sys.stdout.write("  conversions.Convert%s returned ok=%s v=%s; the specification says %s\n" % (
                 tuple(i[0][k] for k in ("era", "amt", "fr", "fa", "tr", "ta")), i[0]["ok"], i[0]["v"], i[1]))
         vlib.violation(pid, p)
-    return cov["mismatches"], cov
+    return n, cov
 
 
 if __name__ == "__main__":
